@@ -57,11 +57,13 @@ func memHandle() *dbHandle {
 		reopen: func() gdbi.GraphDB { return kvgraph.NewKVGraph(kv) }}
 }
 
+// The universe is forced to collide: one id / graph name of each kind is a proper prefix of another
+// (vertices a, ab; edges e, ee; graphs g1, g10), because the key-value layout is built from prefixes.
 func c03Universe(thorough bool) gmodel.Universe {
 	return gmodel.Universe{
-		Graphs:  []string{"g1", "g2"},
-		VIDs:    []string{"a", "b", "zz"},
-		EIDs:    []string{"e", "f", "zz"},
+		Graphs:  []string{"g1", "g10"},
+		VIDs:    []string{"a", "ab", "zz"},
+		EIDs:    []string{"e", "ee", "zz"},
 		VLabels: []string{"P", "Q"},
 		Filters: [][]string{nil, {"x"}, {"y"}, {"x", "y"}},
 	}
@@ -78,10 +80,10 @@ func c03Ops(thorough bool) []gmodel.Op {
 	}
 	ops = append(ops, gmodel.Op{Kind: "AddGraph", G: "g1"})
 	// vertices in g1
-	for _, id := range []string{"a", "b"} {
+	for _, id := range []string{"a", "ab"} {
 		for _, l := range []string{"P", "Q"} {
 			for _, d := range []map[string]any{nil, n1} {
-				if !thorough && id == "b" && d != nil {
+				if !thorough && id == "ab" && d != nil {
 					continue
 				}
 				ops = append(ops, gmodel.Op{Kind: "AddVertex", G: "g1", Elems: []gmodel.Elem{V(id, l, d)}})
@@ -89,13 +91,13 @@ func c03Ops(thorough bool) []gmodel.Op {
 		}
 	}
 	// edges in g1
-	for _, eid := range []string{"e", "f"} {
-		for _, ft := range [][2]string{{"a", "b"}, {"b", "a"}, {"a", "a"}, {"b", "b"}} {
+	for _, eid := range []string{"e", "ee"} {
+		for _, ft := range [][2]string{{"a", "ab"}, {"ab", "a"}, {"a", "a"}, {"ab", "ab"}} {
 			for _, l := range []string{"x", "y"} {
-				if eid == "f" && !(ft == [2]string{"a", "b"} && l == "x") && !(ft == [2]string{"b", "a"} && l == "y") {
+				if eid == "ee" && !(ft == [2]string{"a", "ab"} && l == "x") && !(ft == [2]string{"ab", "a"} && l == "y") {
 					continue
 				}
-				if !thorough && eid == "e" && ft == [2]string{"b", "b"} {
+				if !thorough && eid == "e" && ft == [2]string{"ab", "ab"} {
 					continue
 				}
 				ops = append(ops, gmodel.Op{Kind: "AddEdge", G: "g1", Elems: []gmodel.Elem{E(eid, ft[0], ft[1], l)}})
@@ -103,21 +105,21 @@ func c03Ops(thorough bool) []gmodel.Op {
 		}
 	}
 	// deletes
-	for _, id := range []string{"a", "b", "zz"} {
+	for _, id := range []string{"a", "ab", "zz"} {
 		ops = append(ops, gmodel.Op{Kind: "DelVertex", G: "g1", ID: id})
 	}
-	for _, id := range []string{"e", "f", "zz"} {
+	for _, id := range []string{"e", "ee", "zz"} {
 		ops = append(ops, gmodel.Op{Kind: "DelEdge", G: "g1", ID: id})
 	}
 	// batched and bulk
 	ops = append(ops,
-		gmodel.Op{Kind: "AddVertex", G: "g1", Elems: []gmodel.Elem{V("a", "P", nil), V("b", "Q", n1)}},
+		gmodel.Op{Kind: "AddVertex", G: "g1", Elems: []gmodel.Elem{V("a", "P", nil), V("ab", "Q", n1)}},
 		gmodel.Op{Kind: "AddVertex", G: "g1", Elems: []gmodel.Elem{V("a", "Q", nil), V("", "P", nil)}},
-		gmodel.Op{Kind: "AddEdge", G: "g1", Elems: []gmodel.Elem{E("e", "a", "b", "x"), E("f", "b", "a", "y")}},
-		gmodel.Op{Kind: "BulkAdd", G: "g1", Elems: []gmodel.Elem{V("a", "P", nil), E("e", "a", "b", "x")}},
-		gmodel.Op{Kind: "BulkAdd", G: "g1", Elems: []gmodel.Elem{V("b", "Q", nil), E("f", "b", "b", "y")}},
-		gmodel.Op{Kind: "BulkAdd", G: "g1", Elems: []gmodel.Elem{V("a", "Q", n1), V("b", "", nil)}},
-		gmodel.Op{Kind: "BulkAdd", G: "g1", Elems: []gmodel.Elem{E("e", "b", "a", "y"), E("e", "", "a", "y")}},
+		gmodel.Op{Kind: "AddEdge", G: "g1", Elems: []gmodel.Elem{E("e", "a", "ab", "x"), E("ee", "ab", "a", "y")}},
+		gmodel.Op{Kind: "BulkAdd", G: "g1", Elems: []gmodel.Elem{V("a", "P", nil), E("e", "a", "ab", "x")}},
+		gmodel.Op{Kind: "BulkAdd", G: "g1", Elems: []gmodel.Elem{V("ab", "Q", nil), E("ee", "ab", "ab", "y")}},
+		gmodel.Op{Kind: "BulkAdd", G: "g1", Elems: []gmodel.Elem{V("a", "Q", n1), V("ab", "", nil)}},
+		gmodel.Op{Kind: "BulkAdd", G: "g1", Elems: []gmodel.Elem{E("e", "ab", "a", "y"), E("e", "", "a", "y")}},
 	)
 	// invalid single elements
 	ops = append(ops,
@@ -125,26 +127,26 @@ func c03Ops(thorough bool) []gmodel.Op {
 		gmodel.Op{Kind: "AddVertex", G: "g1", Elems: []gmodel.Elem{V("a", "", nil)}},
 		gmodel.Op{Kind: "AddVertex", G: "g1", Elems: []gmodel.Elem{V("a", "P", map[string]any{"_gid": 1.0})}},
 		gmodel.Op{Kind: "AddVertex", G: "g1", Elems: []gmodel.Elem{V("a", "P", map[string]any{"a b": 1.0})}},
-		gmodel.Op{Kind: "AddEdge", G: "g1", Elems: []gmodel.Elem{E("", "a", "b", "x")}},
-		gmodel.Op{Kind: "AddEdge", G: "g1", Elems: []gmodel.Elem{E("e", "", "b", "x")}},
+		gmodel.Op{Kind: "AddEdge", G: "g1", Elems: []gmodel.Elem{E("", "a", "ab", "x")}},
+		gmodel.Op{Kind: "AddEdge", G: "g1", Elems: []gmodel.Elem{E("e", "", "ab", "x")}},
 		gmodel.Op{Kind: "AddEdge", G: "g1", Elems: []gmodel.Elem{E("e", "a", "", "x")}},
-		gmodel.Op{Kind: "AddEdge", G: "g1", Elems: []gmodel.Elem{E("e", "a", "b", "")}},
+		gmodel.Op{Kind: "AddEdge", G: "g1", Elems: []gmodel.Elem{E("e", "a", "ab", "")}},
 		gmodel.Op{Kind: "AddGraph", G: "bad name"},
 	)
 	// second graph: isolation probe (quick) / full alphabet subset (thorough)
 	ops = append(ops,
-		gmodel.Op{Kind: "AddGraph", G: "g2"},
-		gmodel.Op{Kind: "DeleteGraph", G: "g2"},
+		gmodel.Op{Kind: "AddGraph", G: "g10"},
+		gmodel.Op{Kind: "DeleteGraph", G: "g10"},
 		gmodel.Op{Kind: "DeleteGraph", G: "g1"},
-		gmodel.Op{Kind: "AddVertex", G: "g2", Elems: []gmodel.Elem{V("a", "Q", nil)}},
-		gmodel.Op{Kind: "AddEdge", G: "g2", Elems: []gmodel.Elem{E("e", "a", "a", "y")}},
+		gmodel.Op{Kind: "AddVertex", G: "g10", Elems: []gmodel.Elem{V("a", "Q", nil)}},
+		gmodel.Op{Kind: "AddEdge", G: "g10", Elems: []gmodel.Elem{E("e", "a", "a", "y")}},
 	)
 	if thorough {
 		ops = append(ops,
-			gmodel.Op{Kind: "AddVertex", G: "g2", Elems: []gmodel.Elem{V("b", "P", n1)}},
-			gmodel.Op{Kind: "AddEdge", G: "g2", Elems: []gmodel.Elem{E("f", "a", "b", "x")}},
-			gmodel.Op{Kind: "DelVertex", G: "g2", ID: "a"},
-			gmodel.Op{Kind: "DelEdge", G: "g2", ID: "e"},
+			gmodel.Op{Kind: "AddVertex", G: "g10", Elems: []gmodel.Elem{V("ab", "P", n1)}},
+			gmodel.Op{Kind: "AddEdge", G: "g10", Elems: []gmodel.Elem{E("ee", "a", "ab", "x")}},
+			gmodel.Op{Kind: "DelVertex", G: "g10", ID: "a"},
+			gmodel.Op{Kind: "DelEdge", G: "g10", ID: "e"},
 		)
 	}
 	return ops
